@@ -109,6 +109,11 @@ def run(ctx):
                     body = wrapcore({"raw": {"value": gen.build_value(rng, covered, {})}})
                 except Exception:
                     continue
+                # the digest of the canonical covered bytes, whatever the implementation will hash
+                try:
+                    A.prime_hashes(prog, [A.realize(covered).build(body["raw"]["value"] if "raw" in body else body["body"]["raw"]["value"])])
+                except Exception:
+                    pass
                 ib, b = camp.build(prog, con, body, b"", {})
                 if not b["res"]["ok"]:
                     continue
@@ -145,6 +150,7 @@ def run(ctx):
                         bits = rng.sample(bits, 48)
                     for q, bit in bits:
                         mut = bytearray(out); mut[q] ^= 1 << bit
+                        A.prime_hashes(prog, [mut[off:off + clen]])
                         ipf, pf = camp.parse(prog, con, bytes(mut), 0, {}, tag="flip")
                         camp.sh.session("C14.detects", [ib, ipf])
                         nt += 1
